@@ -7,7 +7,8 @@ CONSTANTS
   Strips = {FALSE}
   Shifts = {0, 1}
   Mods = {"all", "first"}
-  Probs = {"P1", "P2", "P3", "P4"}
+  Probs = {"P1", "P2", "P3", "P4", "P5", "P6"}
   Pads = {0}
   Padfs = {0}
+  Showdups = {FALSE}
 CHECK_DEADLOCK FALSE
